@@ -34,11 +34,11 @@ that BREAKS this property while the crate still compiles and the existing test s
 {variant}
 Prefer a change that needs something specific to manifest — an unusual input, a boundary value, a multi-step sequence of
 operations, a deviating (malicious) counter-party, or two cooperating sites that each look fine alone — not one that any ordinary
-use would expose at once. Do not add obviously artificial code (no `if x == 12345` backdoors); the change should look like a plausible mistake.
+use would expose at once. Never use `git stash` (the stash stack is shared by all worktrees of this repository and other people are working in sibling worktrees): to compare with and without your change use `git diff -- src > /tmp/mychange-$$.diff; git checkout -- src; ...; git apply /tmp/mychange-$$.diff`. Do not add obviously artificial code (no `if x == 12345` backdoors); the change should look like a plausible mistake.
 
 Then write a demonstration: a new integration test file `{wt}/tests/seeded_demo.rs` (or a small example program) that FAILS with your
 change applied and PASSES on the unmodified tree, exercising only the crate's public API (use serde_json to reach non-public fields if needed).
-Verify both directions yourself (git stash / git stash pop, or `git diff > /tmp/x.diff; git checkout -- src; ...`).
+Verify both directions yourself (`git diff -- src > /tmp/<your-own-name>.diff; git checkout -- src; ...; git apply /tmp/<your-own-name>.diff`).
 
 Deliver, inside the worktree:
   - {wt}/seeded/patch.diff      : `git diff -- src` of your change (source only, not the demo)
